@@ -31,7 +31,9 @@ def stage_cfgs(tier):
     c = [Cfg(44100, 48000, HQ), Cfg(48000, 44100, MQ), Cfg(1, 60, HQ), Cfg(1, 125, HQ), Cfg(16, 1, HQ), Cfg(44100, 192000, LQ), Cfg(192000, 44100, HQ),
          Cfg(1, 31, MQ), Cfg(8000, 480000, MQ),
          # rational arbitrary-ratio stages with a short poly-phase prototype (decided like the DFT-stage filters), both engine families
-         Cfg(4, 5, MQ, 0, env=NOSIMD32), Cfg(4, 5, MQ, 0), Cfg(4, 5, LQ, 0, env=NOSIMD32), Cfg(5, 6, MQ, DP), Cfg(5, 7, HQ, 0)]
+         Cfg(4, 5, MQ, 0, env=NOSIMD32), Cfg(4, 5, MQ, 0), Cfg(4, 5, LQ, 0, env=NOSIMD32), Cfg(5, 6, MQ, DP), Cfg(5, 7, HQ, 0),
+         # down-sampling ratios inside (1.5, 2) and (3, 4) that are not small rationals: post stage decimates by 2 after an arbitrary-ratio stage
+         Cfg(88200, 48000, MQ), Cfg(50000, 30000, LQ), Cfg(176400, 48000, MQ)]
     if tier == 'thorough':
         c += [Cfg(5, 4, MQ, 0, env=NOSIMD32), Cfg(4, 5, HQ, 0), Cfg(7, 5, MQ, 0, env=NOSIMD32), Cfg(48000, 44100, VHQ), Cfg(1, 125, VHQ), Cfg(1, 250, HQ), Cfg(44100, 65537, HQ), Cfg(65537, 44100, VHQ), Cfg(1, 57, VHQ), Cfg(1, 110, HQ),
               Cfg(96000, 8000, 5), Cfg(1, 500, MQ), Cfg(1, 63, HQ), Cfg(7, 1, HQ), Cfg(1, 2, 7)]
